@@ -25,7 +25,7 @@ ASSUMPTIONS = [
     "with link faults enabled the clauses are checked only while the ASH link has not failed",
 ]
 PROBES = ["type.unicast", "type.multicast", "type.broadcast", "type.other_defined", "type.undefined", "join.allowed", "join.denied", "join.left", "join.left_denied",
-          "payload.empty", "payload.max", "rssi.negative", "faulty_link", "xiaomi_prefix", "join.device_known", "reconnect_other_version", "callback_during_reload"]
+          "payload.empty", "payload.max", "rssi.negative", "faulty_link", "xiaomi_prefix", "join.device_known", "reconnect_other_version", "callback_during_reload", "callback_during_energy_scan", "callback_during_permit", "callback_during_add_endpoint"]
 
 VERSIONS = list(range(4, 15))
 UNICAST, MULTICAST, BROADCAST = 0, 2, 4
@@ -201,17 +201,23 @@ def run(scenario, params, tape, detail=False):
         elif scenario == "busy":
             # callbacks arriving while the application itself is in the middle of something: re-reading its network information (zigpy's
             # periodic backup does this on a running network) - one callback after the k-th command of that operation, for every k
-            for load_devices in (False, True):
+            import zigpy.types as zt
+
+            ncp.auto_confirm = True
+            ops = (("reload", lambda: app.load_network_info(load_devices=False)), ("reload+devices", lambda: app.load_network_info(load_devices=True)),
+                   ("energy_scan", lambda: app.energy_scan(zt.Channels.from_channel_list([11, 15, 20]), 1, 1)), ("permit", lambda: app.permit_ncp(30)),
+                   ("add_endpoint+multicast", lambda: app._multicast.subscribe(0x4321 + nev[0])))
+            for opname, make_op in ops:
                 k = 0
                 while k < 60:
                     base = len(ncp.requests)
-                    op = loop.create_task(app.load_network_info(load_devices=load_devices), name="reload")
+                    op = loop.create_task(make_op(), name=opname)
                     while len(ncp.requests) < base + k and not op.done():
                         await asyncio.sleep(0.0002)
                     if op.done():
                         op.result()
                         break
-                    probe("callback_during_reload")
+                    probe("callback_during_" + opname.split("+")[0])
                     mtype = (UNICAST, MULTICAST, BROADCAST)[k % 3] if k % 2 else UNICAST
                     aps = (0x0104, 0x0400 + k, 1 + k % 3, 1, 0x0140, 0x2200 + k, 0x30 + k)
                     await incoming(app, mtype, aps, 100 + k, -30 - k, 0x6000 + k, 0, 0xFF, bytes([k, 1, 2]))
